@@ -33,9 +33,9 @@ def chain_session(seed, ncmd):
         which = r.choice(['filter', 'break'])
         c = r.random()
         if c < 0.12:
-            ast = mrender.STAR
+            ast = r.choice([mrender.STAR, mrender.STAR, mrender.pat_full()])                 # `*`, or another way of saying it (`*.*`)
         elif c < 0.2:
-            ast = mrender.BANG
+            ast = r.choice([mrender.BANG, mrender.BANG, mrender.lst([r.choice(atoms)], [mrender.STAR])])   # `!`, or `x ! *`
         elif c < 0.3:
             evs.append({'in': {'e': 'cmd', 'c': which, 'hasarg': True, 'ok': False, 'bad': r.choice(gen.MatcherGen.BAD)}})
             continue
@@ -55,6 +55,13 @@ def chain_session(seed, ncmd):
         if r.random() < 0.3:
             evs.append({'in': g.session()['events'][0]['in']}) if False else None
     s['events'] = evs + [{'in': {'e': 'eof'}}]
+    # the session may start with -f / -b: an ordinary matcher, or a constant in one of its spellings (the first command then
+    # replaces it)
+    c = r.random()
+    if c < 0.35:
+        s['init'] = dict(s['init'], hasf=True, f=r.choice([mrender.pat_full(), mrender.STAR, r.choice(atoms)]))
+    if 0.2 < c < 0.55:
+        s['init'] = dict(s['init'], hasb=True, b=r.choice([mrender.lst([r.choice(atoms)], [mrender.STAR]), mrender.BANG, r.choice(atoms)]))
     return s
 
 
